@@ -420,11 +420,13 @@ func c04Same(a, b c04Out) bool {
 var c04Senders = []string{
 	"s1@sender.example", "S1@SENDER.EXAMPLE", "other@sender.example", "x@unrelated.example", "",
 	"s1@пример.рф", "S1@XN--E1AFMKFD.XN--P1AI", "ś@sender.example", "ś@sender.example", "postmaster",
+	"s1@sender.рф", "s1@sender.xn--p1ai",
 }
 
 var c04Rcpts = []string{
 	"r1@dest.example", "R1@Dest.Example", "r2@dest.example", "r1@пример.рф", "R1@xn--E1AFMKFD.xn--p1ai", "r2@XN--E1AFMKFD.XN--P1AI",
 	"x@unrelated.example", "alias@dest.example", "ré@dest.example", "ré@DEST.example", "postmaster",
+	"r1@dest.рф", "r1@dest.xn--p1ai", "r2@DEST.XN--P1AI",
 }
 
 func c04Check(r *vx.Run, cfg *c04Cfg, sampleIdx int) {
@@ -520,6 +522,7 @@ func c04Leaves() []*c04Leaf {
 var c04DestRuleSets = [][]string{
 	{"r1@dest.example"}, {"dest.example"}, {"R1@DEST.EXAMPLE"}, {"пример.рф"}, {"XN--E1AFMKFD.XN--P1AI"},
 	{"r1@xn--e1afmkfd.xn--p1ai", "unrelated.example"}, {"ré@dest.example"}, {"postmaster"},
+	{"dest.xn--p1ai"}, {"r1@dest.рф"},
 }
 
 func TestVerifC04(t *testing.T) {
@@ -602,7 +605,7 @@ func TestVerifC04(t *testing.T) {
 		do(&c04Cfg{Only: &d2, Rewrite: rw1})
 	}
 	// source level
-	srcRuleSets := [][]string{{"s1@sender.example"}, {"sender.example"}, {"S1@SENDER.EXAMPLE"}, {"xn--e1afmkfd.xn--p1ai"}, {"s1@пример.рф", "sender.example"}, {"ś@sender.example"}}
+	srcRuleSets := [][]string{{"sender.xn--p1ai"}, {"s1@sender.example"}, {"sender.example"}, {"S1@SENDER.EXAMPLE"}, {"xn--e1afmkfd.xn--p1ai"}, {"s1@пример.рф", "sender.example"}, {"ś@sender.example"}}
 	bodies := []*c04Src{dests[0], dests[2], dests[len(leaves)+1], dests[len(dests)/2], dests[len(dests)-1]}
 	for i, rs1 := range srcRuleSets {
 		for bi, b := range bodies {
